@@ -98,7 +98,7 @@ fn compile_native_asset_for_output(
     ir: &tir::AssetExpr,
 ) -> Result<primitives::Multiasset<primitives::PositiveCoin>, Error> {
     let policy = coercion::expr_into_bytes(&ir.policy)?;
-    let policy = primitives::Hash::from(policy.as_slice());
+    let policy = coercion::bytes_into_hash(policy.as_slice())?;
     let asset_name = coercion::expr_into_bytes(&ir.asset_name)?;
     let amount = coercion::expr_into_number(&ir.amount)?;
     let amount = coercion::number_into_u64(amount, "native asset amount")?;
@@ -119,7 +119,7 @@ fn compile_native_asset_for_mint(
     is_burn: bool,
 ) -> Result<primitives::Multiasset<primitives::NonZeroInt>, Error> {
     let policy = coercion::expr_into_bytes(&ir.policy)?;
-    let policy = primitives::Hash::from(policy.as_slice());
+    let policy = coercion::bytes_into_hash(policy.as_slice())?;
     let asset_name = coercion::expr_into_bytes(&ir.asset_name)?;
     let amount = coercion::expr_into_number(&ir.amount)?;
 
@@ -205,11 +205,15 @@ fn compile_adhoc_script(
         .transpose()?
         .map(|v| v as PlutusVersion)
         .unwrap_or(3);
-    let script_bytes = script.unwrap().to_vec();
+    let script_bytes = script
+        .ok_or(Error::MissingExpression("script".to_string()))?
+        .to_vec();
     let script_ref = match version {
         0 => {
             let decoded: pallas::codec::utils::KeepRaw<'_, primitives::NativeScript> =
-                minicbor::decode(&script_bytes).unwrap();
+                minicbor::decode(&script_bytes).map_err(|_| {
+                    Error::FormatError("error decoding native script cbor".to_string())
+                })?;
             let owned_script = decoded.to_owned();
             primitives::ScriptRef::NativeScript(owned_script)
         }
@@ -330,17 +334,21 @@ fn compile_mint_block(tx: &tir::Tx) -> Result<Option<primitives::Mint>, Error> {
     Ok(all)
 }
 
+fn utxo_ref_into_input(x: &UtxoRef) -> Result<primitives::TransactionInput, Error> {
+    Ok(primitives::TransactionInput {
+        transaction_id: coercion::bytes_into_hash(x.txid.as_slice())?,
+        index: x.index as u64,
+    })
+}
+
 fn compile_inputs(tx: &tir::Tx) -> Result<Vec<primitives::TransactionInput>, Error> {
     let refs = tx
         .inputs
         .iter()
         .flat_map(|x| coercion::expr_into_utxo_refs(&x.utxos))
         .flatten()
-        .map(|x| primitives::TransactionInput {
-            transaction_id: x.txid.as_slice().into(),
-            index: x.index as u64,
-        })
-        .collect();
+        .map(|x| utxo_ref_into_input(&x))
+        .collect::<Result<_, _>>()?;
 
     Ok(refs)
 }
@@ -481,9 +489,17 @@ fn compile_vote_delegation_certificate(
     x: &tir::AdHocDirective,
     network: Network,
 ) -> Result<primitives::Certificate, Error> {
-    let stake = coercion::expr_into_stake_credential(&x.data["stake"], network)?;
-    let drep = coercion::expr_into_bytes(&x.data["drep"])?;
-    let drep = primitives::DRep::Key(drep.as_slice().into());
+    let stake = x
+        .data
+        .get("stake")
+        .ok_or(Error::MissingExpression("stake credential".to_string()))?;
+    let stake = coercion::expr_into_stake_credential(stake, network)?;
+    let drep = x
+        .data
+        .get("drep")
+        .ok_or(Error::MissingExpression("drep".to_string()))?;
+    let drep = coercion::expr_into_bytes(drep)?;
+    let drep = primitives::DRep::Key(coercion::bytes_into_hash(drep.as_slice())?);
 
     Ok(primitives::Certificate::VoteDeleg(stake, drep))
 }
@@ -507,27 +523,20 @@ fn compile_reference_inputs(tx: &tir::Tx) -> Result<Vec<primitives::TransactionI
         .iter()
         .flat_map(coercion::expr_into_utxo_refs)
         .flatten()
-        .map(|x| primitives::TransactionInput {
-            transaction_id: x.txid.as_slice().into(),
-            index: x.index as u64,
-        })
-        .collect();
+        .map(|x| utxo_ref_into_input(&x))
+        .collect::<Result<_, _>>()?;
 
     Ok(refs)
 }
 
 fn compile_collateral(tx: &tir::Tx) -> Result<Vec<TransactionInput>, Error> {
-    Ok(tx
-        .collateral
+    tx.collateral
         .iter()
         .filter_map(|collateral| collateral.utxos.as_option())
         .flat_map(coercion::expr_into_utxo_refs)
         .flatten()
-        .map(|x| primitives::TransactionInput {
-            transaction_id: x.txid.as_slice().into(),
-            index: x.index as u64,
-        })
-        .collect())
+        .map(|x| utxo_ref_into_input(&x))
+        .collect()
 }
 
 fn compile_required_signers(tx: &tir::Tx) -> Result<Option<primitives::RequiredSigners>, Error> {
@@ -743,7 +752,7 @@ fn compile_single_mint_redeemer(
 
     for asset in assets.iter() {
         let policy = coercion::expr_into_bytes(&asset.policy)?;
-        let policy = primitives::Hash::from(policy.as_slice());
+        let policy = coercion::bytes_into_hash(policy.as_slice())?;
 
         if !policies.contains(&policy) {
             policies.push(policy);
@@ -1031,16 +1040,27 @@ fn infer_plutus_version(witness_set: &primitives::WitnessSet) -> PlutusVersion {
 fn compute_script_data_hash(
     witness_set: &primitives::WitnessSet,
     pparams: &PParams,
-) -> Option<primitives::Hash<32>> {
+) -> Result<Option<primitives::Hash<32>>, Error> {
     let version = infer_plutus_version(witness_set);
 
-    let cost_model = pparams.cost_models.get(&version).unwrap();
+    // the cost model only matters when there is script data to hash
+    let language_view = match pparams.cost_models.get(&version) {
+        Some(cost_model) => Some(primitives::LanguageView(version, cost_model.clone())),
+        None if witness_set.redeemer.is_none() && witness_set.plutus_data.is_none() => None,
+        None => {
+            return Err(Error::MissingExpression(format!(
+                "cost model for plutus version {version}"
+            )))
+        }
+    };
 
-    let language_view = primitives::LanguageView(version, cost_model.clone());
+    let Some(language_view) = language_view else {
+        return Ok(None);
+    };
 
     let data = primitives::ScriptData::build_for(witness_set, &Some(language_view));
 
-    data.map(|x| x.hash())
+    Ok(data.map(|x| x.hash()))
 }
 
 pub fn entry_point(tx: &tir::Tx, pparams: &PParams) -> Result<primitives::Tx<'static>, Error> {
@@ -1048,7 +1068,8 @@ pub fn entry_point(tx: &tir::Tx, pparams: &PParams) -> Result<primitives::Tx<'st
     let transaction_witness_set = compile_witness_set(tx, &transaction_body, pparams.network)?;
     let auxiliary_data = compile_auxiliary_data(tx)?;
 
-    transaction_body.script_data_hash = compute_script_data_hash(&transaction_witness_set, pparams);
+    transaction_body.script_data_hash =
+        compute_script_data_hash(&transaction_witness_set, pparams)?;
     transaction_body.auxiliary_data_hash = auxiliary_data.as_ref().map(|x| x.compute_hash());
 
     Ok(primitives::Tx {
